@@ -10,6 +10,7 @@
  *   box c p            stand-alone Box owning a fresh probe
  *   push c p | append c p | pushat c i p | pop c | popat c i | set c i p | rem c p | resize c n | sort c
  *   concat c d | assign c d | copy c d (c := copy(d)) | mset c k v | mrem c k | del c | bassign c d
+ *   read c             len / foreach / get / mem / hash / eq (deref for a Box): must not touch any element
  * After the last line every remaining container is deleted (lowest name first), then `O end live=N` is printed.
  *
  * One `O` line per op (the Lean driver must print the same):
@@ -508,6 +509,38 @@ static int run_op(var* H, char** tk, int nt) {
     if (nt != 2 || !NUM(1, c, 0) || !used_name(c)) return 0;
     V_TRY(exc, del(H[c]));
     H[c] = NULL; drop_shadow((int)c);
+    check_and_print(H, RN(exc), (int)c, -1); return 1;
+  }
+  if (!strcmp(op, "read")) {
+    /* read-only entry points: no element may be constructed, assigned or finalised, nothing may change */
+    if (nt != 2 || !NUM(1, c, 0) || !used_name(c)) return 0;
+    int K = sh[c].kind; var h = H[c]; volatile int64_t sum = 0; size_t cnt = 0;
+    if (K == K_ARR || K == K_LST) {
+      V_TRY(exc, {
+        size_t ln = len(h);
+        foreach (it in h) { sum += ((struct Probe*)it)->pay; cnt++; }
+        if (ln) { sum += ((struct Probe*)get(h, $I(0)))->pay; sum += ((struct Probe*)get(h, $I(-1)))->pay; }
+        sum += mem(h, mk_arg(&ab, 3)); sum += (int64_t)(hash(h) & 1); sum += eq(h, h);
+        if (cnt != ln && oracle_on) X("sig=own-len line=%zu what=iteration yields %zu elements, len() is %zu", cur_line, cnt, ln);
+      });
+    } else if (K == K_BARR) {
+      V_TRY(exc, {
+        size_t ln = len(h);
+        foreach (it in h) { var pt = deref(it); if (pt) cnt++; }
+        if (ln) { (void)deref(get(h, $I(0))); }
+        if (cnt != ln && oracle_on) X("sig=own-len line=%zu what=iteration yields %zu boxes, len() is %zu", cur_line, cnt, ln);
+      });
+    } else if (K == K_TBL || K == K_TRE) {
+      V_TRY(exc, {
+        size_t ln = len(h);
+        foreach (key in h) { sum += ((struct Probe*)key)->pay; sum += ((struct Probe*)get(h, key))->pay; cnt++; }
+        sum += mem(h, mk_arg(&ab, 17)); sum += (int64_t)(hash(h) & 1); sum += eq(h, h);
+        if (sh[c].a.n) sum += ((struct Probe*)get(h, mk_arg(&ab2, sh[c].a.v[0])))->pay;
+        if (cnt != ln && oracle_on) X("sig=own-len line=%zu what=iteration yields %zu keys, len() is %zu", cur_line, cnt, ln);
+      });
+    } else {
+      V_TRY(exc, (void)deref(h));
+    }
     check_and_print(H, RN(exc), (int)c, -1); return 1;
   }
   if (!strcmp(op, "bassign")) {
